@@ -187,16 +187,31 @@ theorem set_missing_parent_errors (store : Tree) (parent : List Key) (k : Key) (
 
 /-! ### yaml-safe conversion -/
 
-theorem toYamlSafe_idempotent (a : Assoc) : toSafeA (toSafeA a) = toSafeA a := toSafeA_idem a
+/-- converting twice is converting once (option values of the documented kinds, `plainA`: Python or
+    numpy scalars, None, lists / tuples without arrays, numeric arrays, dicts of these) -/
+theorem toYamlSafe_idempotent (a : Assoc) (h : plainA a = true) : toSafeA (toSafeA a) = toSafeA a :=
+  toSafeA_idem a h
 
-/-- On option values of the documented kinds the converted store contains no ndarray
-    (so it lies in the domain of the codec law). -/
+/-- On option values of the documented kinds the converted store contains no ndarray. -/
 theorem toYamlSafe_arrayFree (a : Assoc) (h : plainA a = true) : arrayFreeA (toSafeA a) = true :=
   arrayFreeA_toSafeA a h
 
-/-- The conversion changes nothing but sequence kinds: "tuples may become lists". -/
+/-- … and no numpy scalar either: it lies in the domain of the codec law (what PyYAML writes with
+    standard tags).  `plainA` allows numpy scalars as option values and anywhere inside lists and
+    tuples (D38: before the repair they were left in place, see `numpy_scalar_not_loadable_before_fix`). -/
+theorem toYamlSafe_yamlSafe (a : Assoc) (h : plainA a = true) : yamlSafeA (toSafeA a) = true :=
+  yamlSafeA_toSafeA a h
+
+/-- The conversion changes nothing but sequence kinds and numpy-vs-Python scalar types of equal
+    value: "tuples may become lists" (`eraseKinds` maps a scalar to its `.item()`). -/
 theorem toYamlSafe_same_options (a : Assoc) : eraseKindsA (toSafeA a) = eraseKindsA a :=
   eraseKindsA_toSafeA a
+
+/-- What `.item()` conversion does to a directly stored numpy scalar: the Python scalar of the same
+    value, at every depth of the option dictionaries. -/
+theorem toYamlSafe_numpy_scalar (a : Assoc) (key : Key) (s : Scalar) (h : a.lookup key = some (.scalar s)) :
+    (toSafeA a).lookup key = some (.scalar s.item) ∧ s.item.isNp = false :=
+  ⟨lookup_toSafeA_scalar a key s h, Scalar.isNp_item s⟩
 
 /-! ### the two YAML routes -/
 
@@ -205,11 +220,11 @@ variable {Text : Type}
 /-- FILE route: `from_yaml_file(to_yaml_file(c))` has the same sift type and the yaml-safe image of
     the same options. -/
 theorem roundtrip_file (C : Codec Text) (hC : C.Lawful) (st : Tree) (a : Assoc)
-    (hst : arrayFree st = true) (hpl : plainA a = true) (hstr : strOkA a = true) :
+    (hst : yamlSafe st = true) (hpl : plainA a = true) (hstr : strOkA a = true) :
     (toYamlFile C { siftType := st, store := .dict a } >>= fromYamlFile C) =
       .ok { siftType := st, store := .dict (toSafeA a) } := by
-  have hfree : arrayFreeL (.cons (.dict (.cons siftTypeKey st .nil)) (.cons (.dict (toSafeA a)) .nil)) = true := by
-    simp [arrayFreeL, arrayFree, arrayFreeA, hst, arrayFreeA_toSafeA a hpl]
+  have hfree : yamlSafeL (.cons (.dict (.cons siftTypeKey st .nil)) (.cons (.dict (toSafeA a)) .nil)) = true := by
+    simp [yamlSafeL, yamlSafe, yamlSafeA, hst, yamlSafeA_toSafeA a hpl]
   have hget : getItem (.dict (.cons siftTypeKey st .nil)) siftTypeKey = .ok st := by
     simp [Assoc.lookup]
   simp [toYamlFile, yamlSafeDocs, strOk, hstr, bind, Except.bind, pure, Except.pure, fromYamlFile,
@@ -218,13 +233,27 @@ theorem roundtrip_file (C : Codec Text) (hC : C.Lawful) (st : Tree) (a : Assoc)
 /-- TEXT route: `from_yaml_stream(to_yaml_text(c))` has the same sift type and the yaml-safe image
     of the same options. -/
 theorem roundtrip_text (C : Codec Text) (hC : C.Lawful) (st : Tree) (a : Assoc)
-    (hst : arrayFree st = true) (hpl : plainA a = true) :
+    (hst : yamlSafe st = true) (hpl : plainA a = true) :
     (toYamlText C { siftType := st, store := .dict a } >>= fromYamlStream C) =
       .ok { siftType := st, store := .dict (toSafeA a) } := by
-  have hfree : arrayFree (.seq .list (.cons (.dict (.cons siftTypeKey st .nil)) (.cons (.dict (toSafeA a)) .nil))) = true := by
-    simp [arrayFreeL, arrayFree, arrayFreeA, hst, arrayFreeA_toSafeA a hpl]
+  have hfree : yamlSafe (.seq .list (.cons (.dict (.cons siftTypeKey st .nil)) (.cons (.dict (toSafeA a)) .nil))) = true := by
+    simp [yamlSafeL, yamlSafe, yamlSafeA, hst, yamlSafeA_toSafeA a hpl]
   simp [toYamlText, yamlSafeDocs, bind, Except.bind, pure, Except.pure, fromYamlStream,
     hC.load_dump _ hfree, Assoc.lookup]
+
+/-- A SECOND trip is the identity: the configuration that was loaded, written and read again (either
+    route) is exactly itself — nothing drifts over repeated save / load cycles. -/
+theorem roundtrip_second_trip_identity (C : Codec Text) (hC : C.Lawful) (st : Tree) (a : Assoc)
+    (hst : yamlSafe st = true) (hpl : plainA a = true) :
+    (toYamlText C { siftType := st, store := .dict (toSafeA a) } >>= fromYamlStream C) =
+      .ok { siftType := st, store := .dict (toSafeA a) } ∧
+    (strOkA a = true →
+      (toYamlFile C { siftType := st, store := .dict (toSafeA a) } >>= fromYamlFile C) =
+        .ok { siftType := st, store := .dict (toSafeA a) }) := by
+  have hp2 : plainA (toSafeA a) = true := plainA_of_yamlSafeA _ (yamlSafeA_toSafeA a hpl)
+  refine ⟨?_, fun hstr => ?_⟩
+  · rw [roundtrip_text C hC st _ hst hp2, toSafeA_idem a hpl]
+  · rw [roundtrip_file C hC st _ hst hp2 (by rw [strOkA_toSafeA]; exact hstr), toSafeA_idem a hpl]
 
 /-- The loaded configuration names the same function and binds the same keyword arguments
     (up to tuple → list) into its partial. -/
@@ -248,7 +277,7 @@ theorem dump_leaves_config_untouched (st : Tree) (a : Assoc) :
     yamlSafeDocs { siftType := st, store := .dict a } =
       .ok (.cons (.dict (.cons siftTypeKey st .nil)) (.cons (.dict (toSafeA a)) .nil)) ∧
     storeAfterDump { siftType := st, store := .dict a } = .dict a ∧
-    (plainA a = true → arrayFreeA (toSafeA a) = true) := ⟨rfl, rfl, arrayFreeA_toSafeA a⟩
+    (plainA a = true → yamlSafeA (toSafeA a) = true) := ⟨rfl, rfl, yamlSafeA_toSafeA a⟩
 
 /-- D14 (pinned code): with the shallow copy, a nested tuple became a list in the LIVE configuration. -/
 theorem legacy_dump_mutated_nested :
@@ -261,13 +290,86 @@ theorem legacy_dump_mutated_nested :
 /-- D14 (pinned code): the text route was not an inverse — for EVERY configuration the loaded store
     was the two-element list and the sift type the default. -/
 theorem legacy_text_route_not_inverse (C : Codec Text) (hC : C.Lawful) (st : Tree) (a : Assoc)
-    (hst : arrayFree st = true) (hpl : plainA a = true) :
+    (hst : yamlSafe st = true) (hpl : plainA a = true) :
     (toYamlText C { siftType := st, store := .dict a } >>= fromYamlStreamLegacy C) =
       .ok { siftType := defaultName,
             store := .seq .list (.cons (.dict (.cons siftTypeKey st .nil)) (.cons (.dict (toSafeA a)) .nil)) } := by
-  have hfree : arrayFree (.seq .list (.cons (.dict (.cons siftTypeKey st .nil)) (.cons (.dict (toSafeA a)) .nil))) = true := by
-    simp [arrayFreeL, arrayFree, arrayFreeA, hst, arrayFreeA_toSafeA a hpl]
+  have hfree : yamlSafe (.seq .list (.cons (.dict (.cons siftTypeKey st .nil)) (.cons (.dict (toSafeA a)) .nil))) = true := by
+    simp [yamlSafeL, yamlSafe, yamlSafeA, hst, yamlSafeA_toSafeA a hpl]
   simp [toYamlText, yamlSafeDocs, bind, Except.bind, pure, Except.pure, fromYamlStreamLegacy, hC.load_dump _ hfree]
+
+/-- D38 (before the repair): numpy scalars were left in the written documents; PyYAML dumps them with
+    `python/object/apply:numpy…` tags which its FullLoader refuses, so — with the codec that refuses
+    exactly the trees outside `yamlSafe` (validated against the real PyYAML by the harness, stream
+    `yaml_codec`) — a configuration edited with `cfg['max_imfs'] = np.int64(3)` could be written by
+    both routes and read back by neither. -/
+theorem numpy_scalar_not_loadable_before_fix :
+    ∃ a : Assoc, plainA a = true ∧
+      (toYamlTextV1 idealCodec { siftType := defaultName, store := .dict a } >>= fromYamlStream idealCodec)
+        = .error .constructorError ∧
+      (toYamlFileV1 idealCodec { siftType := defaultName, store := .dict a } >>= fromYamlFile idealCodec)
+        = .error .constructorError ∧
+      -- … and the repaired conversion reads back the Python scalar of the same value
+      (toYamlText idealCodec { siftType := defaultName, store := .dict a } >>= fromYamlStream idealCodec)
+        = .ok { siftType := defaultName, store := .dict (.cons (k "max_imfs") (.scalar (.int 3)) .nil) } :=
+  ⟨.cons (k "max_imfs") (.scalar (.npint (k "int64") 3)) .nil, by decide, rfl, rfl, rfl⟩
+
+/-! ### object sharing: the model's no-aliasing assumption, made explicit
+
+The property's clauses are about a configuration and what is read from it *at that time*; the `Tree`
+model represents `get_func()`'s partial by the VALUE of the store when it was taken (`getFunc`).  The
+real partial shares the nested option dicts with the live configuration.  Judged outside C18 (the
+text promises a callable that behaves like the original call, not one that is frozen against later
+edits of the configuration it came from; upstream documents `get_func` as "a partial-function coded
+with the options from this config"); recorded here and observed on the real code by the harness. -/
+
+open Alias in
+/-- A partial (or `SiftConfig(name, **cfg)` / `dict(cfg)` copy) taken from a configuration and then
+    left alone denotes exactly the configuration's options — the case the `Tree` model covers. -/
+theorem alias_copy_denotes_same_options (h : Heap) (top : Top) :
+    resolve h (shallowCopy top) = resolve h top := rfl
+
+open Alias in
+/-- A later ONE-level edit of the configuration never reaches the partial: it rebinds an entry of the
+    configuration's own top-level dict; the partial's keyword dict and the heap are what they were. -/
+theorem alias_top_level_edit_not_seen (h : Heap) (top : Top) (key : Key) (v : Tree) :
+    let partialKw := shallowCopy top
+    let _cfgAfter := setTop top key v
+    resolve h partialKw = resolve h top := rfl
+
+open Alias in
+/-- A later NESTED edit (`cfg['parent/key'] = v`) always reaches it: the partial's `parent` entry is the
+    same dict object, which now holds `key ↦ v`. -/
+theorem alias_nested_edit_is_seen (h : Heap) (top : Top) (parent key : Key) (addr : Nat) (v : Tree)
+    (hp : slotOf top parent = some (.ref addr)) :
+    (resolve (setNested h addr key v) (shallowCopy top)).lookup parent = some (.dict ((h addr).insert key v)) := by
+  unfold shallowCopy
+  induction top with
+  | nil => simp [slotOf] at hp
+  | cons e r ih =>
+    obtain ⟨k', s⟩ := e
+    by_cases hk : k' = parent
+    · simp [slotOf, hk] at hp
+      subst hp
+      simp [resolve, Assoc.lookup, hk, resolveSlot, setNested]
+    · simp [slotOf, hk] at hp
+      simp [resolve, Assoc.lookup, hk, ih hp]
+
+open Alias in
+/-- Concrete witness (checked against the real code, stream `aliasing`): `f = cfg.get_func()`, then
+    `cfg['max_imfs'] = 1` is NOT seen by `f`, `cfg['imf_opts/sd_thresh'] = 5.0` IS. -/
+theorem get_func_shares_nested_dicts_current :
+    ∃ (h : Heap) (top : Top) (v : Tree),
+      (resolve h (shallowCopy top)).lookup (k "max_imfs") = (resolve h top).lookup (k "max_imfs") ∧
+      (resolve h (setTop top (k "max_imfs") v)).lookup (k "max_imfs") ≠ (resolve h (shallowCopy top)).lookup (k "max_imfs") ∧
+      (resolve (setNested h 0 (k "sd_thresh") v) (shallowCopy top)).lookup (k "imf_opts") ≠
+        (resolve h (shallowCopy top)).lookup (k "imf_opts") :=
+  ⟨fun _ => .cons (k "sd_thresh") (.scalar (.int 0)) .nil,
+   [(k "max_imfs", .val Tree.none), (k "imf_opts", .ref 0)], .scalar (.int 5), rfl,
+   by simp [resolve, shallowCopy, setTop, resolveSlot, Assoc.lookup, Tree.none],
+   by
+    have e : (k "max_imfs" = k "imf_opts") = False := by decide
+    simp [resolve, shallowCopy, setNested, resolveSlot, Assoc.lookup, Assoc.insert, e]⟩
 
 /-! ### default configurations -/
 
@@ -353,7 +455,25 @@ example : ∃ s, cfgDel cfg0 (k "imf_opts/sd_thresh") = .ok s ∧
 
 -- the ideal codec of the driver satisfies the codec law, so `roundtrip_file/text` have a model
 theorem idealCodec_lawful : idealCodec.Lawful :=
-  ⟨fun _ _ => rfl, fun _ _ => rfl⟩
+  ⟨fun t h => by simp [idealCodec, h], fun ts h => by simp [idealCodec, h]⟩
+
+/-- a configuration edited with numpy scalars: `cfg['imf_opts/sd_thresh'] = np.float64(0.1)`,
+    `cfg['max_imfs'] = np.int64(3)`, `cfg['imf_opts/rilling_thresh'] = (np.float32(0.5), [np.bool_(True)])` -/
+def cfgNp : Assoc :=
+  .cons (k "max_imfs") (.scalar (.npint (k "int64") 3))
+  (.cons (k "imf_opts") (.dict (.cons (k "sd_thresh") (.scalar (.npnum (k "float64") (1/10)))
+                         (.cons (k "rilling_thresh") (.seq .tuple (.cons (.scalar (.npnum (k "float32") (1/2)))
+                            (.cons (.seq .list (.cons (.scalar (.npbool true)) .nil)) .nil))) .nil))) .nil)
+
+example : plainA cfgNp = true := by decide
+example : yamlSafeA cfgNp = false := by decide
+
+/-- the repaired conversion: Python scalars of the same values, the nested tuple a list -/
+example : toSafeA cfgNp =
+    .cons (k "max_imfs") (.scalar (.int 3))
+    (.cons (k "imf_opts") (.dict (.cons (k "sd_thresh") (.scalar (.num (1/10)))
+                           (.cons (k "rilling_thresh") (.seq .list (.cons (.scalar (.num (1/2)))
+                              (.cons (.seq .list (.cons (.scalar (.bool true)) .nil)) .nil))) .nil))) .nil) := rfl
 
 example : plain cfg0 = true := by decide
 example : strOk cfg0 = true := by decide
